@@ -42,9 +42,9 @@ from mc.c06_canon import canon
 ID = "C06"
 TECHNIQUE = "explicit-state BFS over histories of copy/merge/transform calls on live real meshes vs exact reference tuples"
 RULE = ("explicit-state BFS over all histories of copy (4 flag combinations) / merge([a,b]) / merge([a,a]) / merge([a,b,a]) / "
-        "translate / rotate (matrix, Rotation, Euler list and tuple) / scale / scale_xyz / normalize (both modes) / "
+        "translate / rotate (matrix, Rotation, Euler list and tuple) / scale / scale_xyz / normalize (both modes) / fit_into_unit_cube / "
         "translate_to_origin / flatten / connectivity query, applied to any mesh of a live set of <= 3 meshes, started from "
-        "each of the 65 producer configurations (11 loader files, from_arrays x 6, raw containers, 35 procedural, merge, 8 "
+        "each of the 65 producer configurations (11 loader files, from_arrays x 6, raw containers x 2, 34 procedural, merge, 8 "
         "subdivisions, 3 boundary extractions) and from 8 pairs of them; plus a sweep of the 24 axis rotations in every "
         "argument form with their inverses; a case is one distinct (canonical dump of the real meshes and caller arrays "
         "incl. aliasing pattern, model) state reached by >= 1 event")
@@ -186,7 +186,7 @@ MENUS = {
         translate=["T0", "T0n", "T1", "T1n"],
         rotate=[f"m:{RZ90}:0", f"o:{RZ270}:0", f"e:{RX90}:0", f"t:{RX270}:0", "o:g+:o", "o:g-:o"],
         scale=["2", "half", "2@o", "half@o"], scale_xyz=["A", "Ainv", "A@o", "Ainv@o"],
-        normalize=[True, False], to_origin=True, flatten=[2, 0], touch=True,
+        normalize=[True, False, "fit"], to_origin=True, flatten=[2, 0], touch=True,
         copy=[(False, False), (True, False), (False, True), (True, True)], merge3=True),
     "reduced": dict(
         translate=["T1", "T1n"], rotate=[f"m:{RZ90}:0"], scale=["2"], scale_xyz=["A"], normalize=[True], to_origin=True,
@@ -342,7 +342,7 @@ def model_map(ev, V):
         mn = [min(p[r] for p in V) for r in range(3)]
         mx = [max(p[r] for p in V) for r in range(3)]
         ext = max(mx[r] - mn[r] for r in range(3))
-        if ev[2]:
+        if ev[2] is True:
             c = [(mn[r] + mx[r]) / 2 for r in range(3)]
             return [tuple((p[r] - c[r]) * 2 / ext for r in range(3)) for p in V], False
         return [tuple((p[r] - mn[r]) / ext for r in range(3)) for p in V], False
@@ -399,7 +399,7 @@ def param_class(ev):
     if k in ("scale", "scale_xyz"):
         return "orig=given" if ev[2].endswith("@o") else "orig=None"
     if k == "normalize":
-        return "center_at_zero=%s" % ev[2]
+        return "fit_into_unit_cube" if ev[2] == "fit" else "center_at_zero=%s" % ev[2]
     if k == "flatten":
         return "dim=given"
     return "any"
@@ -747,7 +747,7 @@ class Run:
             for i in range(len(d)):
                 d[i] = np.array(d[i]).view(type(d[i])) if isinstance(d[i], np.ndarray) else d[i]
         X = st2.live[ev[1]]
-        fn = self._fn(ev[0])
+        fn = self._fn(ev[0], ev)
         a, kw, _ = self._real_args(ev)
         o = call(fn, X.real, *a, **kw)
         if not o.ok or any(p is None for p in X.V):
@@ -862,8 +862,10 @@ class Run:
         return True
 
     @staticmethod
-    def _fn(kind):
+    def _fn(kind, ev=None):
         import mouette as M
+        if kind == "normalize" and ev is not None and ev[2] == "fit":
+            return M.transform.fit_into_unit_cube
         return {"translate": M.transform.translate, "rotate": M.transform.rotate, "scale": M.transform.scale,
                 "scale_xyz": M.transform.scale_xyz, "normalize": M.transform.normalize,
                 "to_origin": M.transform.translate_to_origin, "flatten": M.transform.flatten}[kind]
@@ -910,7 +912,7 @@ class Run:
             o = Vec(float(og[0]), float(og[1]), float(og[2]))
             return (float(f[0]), float(f[1]), float(f[2]), o), {}, [(o, [float(c) for c in og])]
         if kind == "normalize":
-            return (), {"center_at_zero": ev[2]}, []
+            return (), ({} if ev[2] == "fit" else {"center_at_zero": ev[2]}), []
         if kind == "to_origin":
             return (), {}, []
         if kind == "flatten":
@@ -922,7 +924,7 @@ class Run:
         rep = self.rep
         kind, i = ev[0], ev[1]
         X = st.live[i]
-        fn = self._fn(kind)
+        fn = self._fn(kind, ev)
         before, _ = read_vertices(X.real)
         pre = [[vptr(v) for v in L.real.vertices] for L in st.live] if check else None
         a, kw, watch = self._real_args(ev)
@@ -933,7 +935,7 @@ class Run:
             if check:
                 rep.outcome(kind, "raises:" + o.exc)
                 _, dts = read_vertices(X.real)
-                icls = ("vertex_dtype=" + "+".join(sorted(dts))) if not dts <= {"float64", "float32"} else "producer=" + X.label
+                icls = "vertex_dtype=integer" if any(d.startswith("int") for d in dts) else "producer=" + X.label
                 self.viol("C06.transform.answers", PRIMITIVE[kind], "raises:" + o.exc, icls,
                           {"event": list(ev), "mesh_producer": X.label, "msg": o.msg})
             return True
@@ -964,7 +966,7 @@ class Run:
             mx = [max(p[r] for p in after) for r in range(3)]
             ext = max(mx[r] - mn[r] for r in range(3))
             tol = 100 * X.tol
-            if ev[2]:
+            if ev[2] is True:
                 okb = abs(ext - 2) <= tol and all(abs(mn[r] + mx[r]) <= tol for r in range(3))
             else:
                 okb = abs(ext - 1) <= tol and all(abs(mn[r]) <= tol for r in range(3))
@@ -1255,6 +1257,8 @@ def finish(tier, rep: Report):
     ran = rep.counters.get("bfs_tasks", 0)
     if ran < len(PRODUCERS):
         return fails                                     # --only run: the guards below are about the full sweep
+    if len(PRODUCERS) != 65:
+        fails.append(f"producer registry has {len(PRODUCERS)} entries, pinned count is 65")
     for n in PRODUCERS:
         if "producer:" + n not in rep.flags:
             fails.append("producer never explored: " + n)
